@@ -36,6 +36,7 @@ type vf14Case struct {
 	DsdtBoth    bool  `json:"dsdt_both_pointers"`
 	RealWindow  bool  `json:"real_window"` // the BIOS area 0xe0000-0xfffff itself
 	NoPointer   bool  `json:"no_valid_pointer"`
+	DecoyOtherRev bool `json:"decoy_of_other_revision"` // the bad-checksum structures carry the other revision than the genuine pointer
 	DecoyExt    bool  `json:"decoy_corrupt_in_extended_part"` // revision>=2: the bad-checksum structures are corrupted in bytes 20..35 only (their first 20 bytes still sum to zero)
 }
 
@@ -147,15 +148,19 @@ func (e *vf14Env) run(run *verifrt.Run, c vf14Case) {
 		}
 	})
 	mkRsdp := func(slot int, good bool) {
+		rev := c.Rev
+		if !good && c.DecoyOtherRev {
+			rev = 2 - c.Rev
+		}
 		b := win[slot*16 : slot*16+40]
 		for i := range b {
 			b[i] = 0
 		}
 		copy(b, "RSD PTR ")
 		copy(b[9:15], "GOPHER")
-		b[15] = c.Rev
+		b[15] = rev
 		*(*uint32)(unsafe.Pointer(&b[16])) = uint32(root)
-		if c.Rev != 0 {
+		if rev != 0 {
 			*(*uint32)(unsafe.Pointer(&b[20])) = 36
 			*(*uint64)(unsafe.Pointer(&b[24])) = uint64(root)
 			b[8] = -vfCsum(b[:20])
@@ -163,9 +168,15 @@ func (e *vf14Env) run(run *verifrt.Run, c vf14Case) {
 			// the driver sums the Go struct's 40 bytes: the 4 bytes after the 36-byte structure stay zero (DESIGN.md C14)
 		} else {
 			b[8] = -vfCsum(b[:20])
+			if !good && c.DecoyOtherRev {
+				// a revision-0 structure in front of a revision-2 pointer: what follows its 20 bytes is not part of it
+				for i := 20; i < 36; i++ {
+					b[i] = byte(0x31 + i)
+				}
+			}
 		}
 		if !good {
-			if c.DecoyExt && c.Rev != 0 {
+			if c.DecoyExt && rev != 0 {
 				b[33] ^= 0x40 // reserved byte of the extended part: the 20-byte checksum stays valid, the extended one does not
 			} else {
 				b[9] ^= 0x40
@@ -180,6 +191,12 @@ func (e *vf14Env) run(run *verifrt.Run, c vf14Case) {
 		mkRsdp(c.Slot+need, false)
 	}
 	mkRsdp(c.Slot, !c.NoPointer)
+	if c.Rev == 0 && !c.NoPointer {
+		// whatever follows a revision-0 structure does not belong to it
+		for i := 20; i < 32 && c.Slot*16+i < len(win); i++ {
+			win[c.Slot*16+i] = byte(0x57 + i)
+		}
+	}
 
 	var pan interface{}
 	func() {
@@ -335,6 +352,13 @@ func TestVerifC14(t *testing.T) {
 				}
 				// only decoys / a corrupted pointer: nothing may be accepted
 				env.run(run, vf14Case{Rev: rev, Slot: slot, Decoy: decoy, NoPointer: true})
+				// bad-checksum structures of the other revision in front of / behind the genuine pointer
+				for _, ord := range orders {
+					if len(ord) <= 1 {
+						env.run(run, vf14Case{Rev: rev, Slot: slot, Decoy: decoy, Order: ord, DecoyOtherRev: true})
+						env.run(run, vf14Case{Rev: rev, Slot: slot, Decoy: decoy, Order: ord, DecoyOtherRev: true, DecoyExt: true})
+					}
+				}
 				if rev != 0 {
 					// structures whose corruption is confined to the extended part
 					env.run(run, vf14Case{Rev: rev, Slot: slot, Decoy: decoy, NoPointer: true, DecoyExt: true})
@@ -363,6 +387,6 @@ func TestVerifC14(t *testing.T) {
 		}
 		run.Count("real_window_cases", 40)
 	}
-	run.Finish(true, "2 revisions x every admissible 16-byte slot of a 12-slot search window x 4 decoy layouts x every order of <=3 (thorough: 4) of {APIC,HPET,SSDT,FACP} x every corruption subset x DSDT {valid,corrupt} x {one, both} DSDT pointers; root pointer with a bad checksum only; bad-checksum structures corrupted in the first 20 bytes or (revision 2) in the extended part only; first/last admissible slots of the real BIOS area 0xe0000-0xfffff",
+	run.Finish(true, "2 revisions x every admissible 16-byte slot of a 12-slot search window x 4 decoy layouts x every order of <=3 (thorough: 4) of {APIC,HPET,SSDT,FACP} x every corruption subset x DSDT {valid,corrupt} x {one, both} DSDT pointers; root pointer with a bad checksum only; bad-checksum structures corrupted in the first 20 bytes or (revision 2) in the extended part only, of the same or of the other revision than the genuine pointer; arbitrary bytes behind a revision-0 structure; first/last admissible slots of the real BIOS area 0xe0000-0xfffff",
 		"distinct = (revision, table count, corruption mask, DSDT state)")
 }
